@@ -342,10 +342,7 @@ class Gen:
             t = uac(a.t, b.t)
         if self.cal and op in LOGIC:
             # exclusion logic-var-operand
-            if a.k == 'var':
-                a = self.mk_bin('!=', a, self.mk_lit(0))
-            if b.k == 'var':
-                b = self.mk_bin('!=', b, self.mk_lit(0))
+            a, b = self.truth(a), self.truth(b)
             if render_plain(a) == render_plain(b):
                 b = self.mk_bin('!=', self.smalllit(0, 3), self.mk_lit(2))
         v = None
@@ -380,6 +377,17 @@ class Gen:
                 return self.smalllit(0, 9)
             v, _ = wrap(a.v, typ)
         return N('cast', typ, a, pid=self.pid(), t=typ, const=a.const, v=v)
+
+    def truth(self, n):
+        """calibrated profile (exclusion logic-var-operand): an operand used as a truth value is always a
+        comparison / logical expression, never a plain value"""
+        if not self.cal:
+            return n
+        if n.k == 'bin' and (n.a in CMP or n.a in LOGIC):
+            return n
+        if n.k == 'un' and n.a == '!':
+            return n
+        return self.mk_bin('!=', n, self.mk_lit(0))
 
     def signed_val(self, n):
         """calibrated profile: make the operand's type a signed type of >= 32 bits without changing
@@ -520,8 +528,8 @@ class Gen:
                     a = self.signed_val(a)
                 elif op == '~' and not a.const:
                     a = self.lit()
-                elif op == '!' and a.k == 'var':
-                    return self.mk_bin('==', a, self.mk_lit(0))
+                elif op == '!':
+                    a = self.truth(a)
             return self.mk_un(op, a)
         if x < 0.92:
             self.feat('cast')
@@ -609,9 +617,7 @@ class Gen:
                 return self.mk_bin('!=', v, self.mk_lit(0))
             return v
         a = self.expr(env, depth, avoid)
-        if self.cal and a.k == 'var':
-            return self.mk_bin('==', a, self.mk_lit(0))
-        return self.mk_un('!', a)
+        return self.mk_un('!', self.truth(a))
 
     # ------------------------------------------------------------ statements
     def block(self, env, out, indent, nstmts, loopdepth, fn_ret):
